@@ -552,6 +552,7 @@ class Explorer:
         self.stats = dict(paths=0, aborted=0, feas_queries=0, infeasible=0, unsupported=0)
         self.goals = []                   # (name, path_id, [assumptions], atom, snapshot of inputs)
         self._defcache = {}
+        self._defkeep = []
         self._defproved = {}
         self.inputs = {}                  # name -> z3 var (all paths)
         self.path_notes = []
@@ -657,20 +658,14 @@ class Explorer:
         return self.shard is None or len(self.forks) >= self.shard_depth or self.shard[0] == 0
 
     def _feasible(self, c):
+        # a fresh solver per query: z3 does not honour `timeout` reliably in incremental (push/pop) mode on
+        # non-linear constraints (observed: a 200 ms feasibility check that never returned)
         self.stats['feas_queries'] += 1
-        s = self._solver
-        if s is None:
-            s = self._solver = z3.Solver()
-            s.set('timeout', self.feas_ms)
-            self._nadded = 0
-        if self._nadded < len(self.pc):
-            s.add(*self.pc[self._nadded:])
-            self._nadded = len(self.pc)
-        s.push()
+        s = z3.Solver()
+        s.set('timeout', self.feas_ms)
+        s.add(*self.pc)
         s.add(c)
-        r = s.check()
-        s.pop()
-        return r != z3.unsat
+        return s.check() != z3.unsat
 
     def _defined_goal(self, name, cond, info):
         """definedness side goal (sqrt radicand, denominators): proved on the spot under the current path prefix when
@@ -689,6 +684,7 @@ class Explorer:
         s.add(z3.Not(cond))
         if s.check() == z3.unsat:
             self._defcache.setdefault(key, []).append(frozenset(c.get_id() for c in self.pc))
+            self._defkeep.append((cond, list(self.pc)))   # keep the terms alive: z3 AST ids are reused after garbage collection
             self._defproved[name] = self._defproved.get(name, 0) + 1
             return
         self.goal(name, sym.Holds(cond), info=info)
